@@ -154,6 +154,8 @@ WORKFLOW_STATE_MACHINE_DATA = {
         events.WORKFLOW_FAILED: statuses.FAILED,
         events.TASK_RUNNING: statuses.RUNNING,
         events.TASK_RESUMING: statuses.RUNNING,
+        events.TASK_FAILED_WORKFLOW_ACTIVE: statuses.FAILED,
+        events.TASK_FAILED_WORKFLOW_DORMANT: statuses.FAILED,
     },
     statuses.RESUMING: {
         events.WORKFLOW_PAUSING_WORKFLOW_ACTIVE: statuses.PAUSING,
